@@ -7,6 +7,7 @@ TRUST = "trusted: clang-14 IR generation, the ll2c IR->C translation (validated 
 P = {
  'C01': ("serialize->parse identity of the codecs covered (typed scalar helpers over the whole value range; stream-management, SASL, SASL2, bind2, FAST nonzas over the DOM/writer tree model) for every field value inside the bound", "QDom/QXmlStreamWriter are a shared tree model (Qt's escaping and tokenising trusted); numbers and base64 abstract; strings <= 2 UTF-16 units; the remaining ~100 payload classes are outside the claim", "4 C01"),
  'C03': ("read-boundary independence: byte layer (real readyRead lambda, any valid UTF-8 <= 4 bytes, any 3-way split) and one inductive step of the unmodified processData from an arbitrary buffer state over abstract token streams", "QString::fromUtf8 replaced by a spec-level decoder validated against libQt5Core on 21 M strings per run; QRegularExpression/QDomDocument::setContent modelled over token sequences; real XML tokenisation outside the claim", "4 C03"),
+ 'C04': ("one step of the real QXmppOutgoingClient (handleStart, handleStream, handleStreamFeatures, handlePacketReceived, StarttlsManager) from an arbitrary private state satisfying the invariant 'TLS required and not encrypted => only the client itself or the STARTTLS step listens': nothing tagged credential/auth/bind/stanza/resume reaches the socket, encryption starts only after <proceed/>, give-up disconnects", "socket writes are classified by the type of the serializer; SASL/SASL2 managers cut at authenticate(); replies of client extensions before encryption are outside", "4 C04"),
  'C05': ("the mechanism chosen by the real chooseMechanism equals a reference written from the property text for every offer/disabled/preferred/credential combination inside the bound", "mechanism names from a fixed table chosen by symbolic index", "4 C05"),
  'C06': ("SCRAM/PLAIN/HT/DIGEST-MD5 client messages are assembled as the RFCs prescribe and unproven servers are refused, with hash/HMAC/PBKDF2 as a recording oracle", "crypto primitives are uninterpreted, functionally consistent oracles; SASLprep outside", "4 C06"),
  'C07': ("one step of OutgoingIqManager from an arbitrary request table: a request completes exactly once and only by a result/error with its id from the addressee", "QXmppTask/QXmppPromise replaced by the shadow whose contract C13 establishes; request table as class-level array model", "4 C07"),
